@@ -36,7 +36,7 @@ fn main() {
             let mut r = Rng::for_case(args.seed, i);
             // thorough: every fourth history is long (40..90 data ops)
             let n_ops = if args.thorough() && i % 4 == 0 { 40 + r.usize(51) } else { 10 + r.usize(19) };
-            let g = GenCfg { universe: *r.pick(&[2, 3, 5, 9]), n_ops, malformed: 6, handover: 15 };
+            let g = GenCfg { universe: *r.pick(&[2, 3, 5, 9]), n_ops, malformed: 6, handover: 15, crash_creates: true };
             cases.push((format!("gen{i}"), gen_case(&mut r, &g)));
         }
     }
